@@ -16,6 +16,10 @@ static void sp_leak(const char *fn, size_t b0, sp_redo redo, void *u) {
     if (grew == 3) sw_violation(fn, "leak", "", sp_w); }
 }
 
+XRL_EXTERN void Refractive_Index2(const char compound[], double E, double density, xrlComplex* result, xrl_error **error);
+XRL_EXTERN void Crystal_F_H_StructureFactor2(Crystal_Struct* crystal, double energy, int i_miller, int j_miller, int k_miller, double debye_factor, double rel_angle, xrlComplex* result, xrl_error **error);
+XRL_EXTERN void Crystal_F_H_StructureFactor_Partial2(Crystal_Struct* crystal, double energy, int i_miller, int j_miller, int k_miller, double debye_factor, double rel_angle, int f0_flag, int f_prime_flag, int f_prime2_flag, xrlComplex* result, xrl_error **error);
+
 /* ---------------- digests of objects (to compare the slot / no-slot results) */
 static uint64_t dg_cd(const struct compoundData *c) { uint64_t h = XV_FNV0; if (!c) return 0; h = xv_fnv(&c->nElements, 4, h); h = xv_fnv(&c->nAtomsAll, 8, h); h = xv_fnv(&c->molarMass, 8, h);
   h = xv_fnv(c->Elements, 4 * c->nElements, h); h = xv_fnv(c->massFractions, 8 * c->nElements, h); h = xv_fnv(c->nAtoms, 8 * c->nElements, h); return h; }
@@ -228,6 +232,17 @@ static void do_misc(void) { xrl_error *e = NULL, *c, *d = NULL; xrlComplex a = {
   if (p && q) { s = add_compound_data(*p, 0.25, *q, 0.75); if (!s || s->nElements != 3 || !fin_cd(s)) sw_violation("add_compound_data", "wrong-answer", "", sp_w); if (s) FreeCompoundData(s); }
   if (p) FreeCompoundData(p); if (q) FreeCompoundData(q);
   { char *x = xrl_strdup("abc"), *y = xrl_strndup("abcdef", 2); void *z = xrl_malloc(10); if (!x || strcmp(x, "abc") || !y || strcmp(y, "ab") || !z) sw_violation("xrl_strdup", "wrong-answer", "", sp_w); xrlFree(x); xrlFree(y); xrlFree(z); }
+  SP_LAST("exported helper entry points of the bindings");
+  { xrlComplex z = {7, 7}, z2; Crystal_Struct *si = Crystal_GetCrystal("Si", NULL, NULL); xrl_error *e2 = NULL;
+    Refractive_Index2("H2O", 8.0, 1.0, &z, &e2); z2 = Refractive_Index("H2O", 8.0, 1.0, NULL);
+    if (e2 || xv_bits(z.re) != xv_bits(z2.re) || xv_bits(z.im) != xv_bits(z2.im)) sw_violation("Refractive_Index2", "wrong-answer", "", sp_w); if (e2) xrl_clear_error(&e2);
+    Refractive_Index2("nope(", 8.0, 1.0, &z, &e2); if (!e2 || z.re != 0.0 || z.im != 0.0) sw_violation("Refractive_Index2", "error-with-value", "", sp_w); if (e2) xrl_clear_error(&e2);
+    if (si) { Crystal_F_H_StructureFactor2(si, 8.0, 1, 1, 1, 1.0, 1.0, &z, &e2); z2 = Crystal_F_H_StructureFactor(si, 8.0, 1, 1, 1, 1.0, 1.0, NULL);
+      if (e2 || xv_bits(z.re) != xv_bits(z2.re) || xv_bits(z.im) != xv_bits(z2.im)) sw_violation("Crystal_F_H_StructureFactor2", "wrong-answer", "", sp_w); if (e2) xrl_clear_error(&e2);
+      Crystal_F_H_StructureFactor_Partial2(si, 8.0, 1, 1, 1, 1.0, 1.0, 2, 0, 2, &z, &e2); z2 = Crystal_F_H_StructureFactor_Partial(si, 8.0, 1, 1, 1, 1.0, 1.0, 2, 0, 2, NULL);
+      if (e2 || xv_bits(z.re) != xv_bits(z2.re) || xv_bits(z.im) != xv_bits(z2.im)) sw_violation("Crystal_F_H_StructureFactor_Partial2", "wrong-answer", "", sp_w); if (e2) xrl_clear_error(&e2);
+      Crystal_F_H_StructureFactor_Partial2(si, -1.0, 1, 1, 1, 1.0, 1.0, 2, 0, 2, &z, &e2); if (!e2 || z.re != 0.0 || z.im != 0.0) sw_violation("Crystal_F_H_StructureFactor_Partial2", "error-with-value", "", sp_w); if (e2) xrl_clear_error(&e2);
+      Crystal_Free(si); } }
   SP_LAST("XRayInit"); XRayInit();
   sw_check_stderr("misc");
   /* deprecated stubs are allowed to print their deprecation message: swallow it */
